@@ -85,7 +85,7 @@ def _gen_layout(rng, N):
     return {"type": "explicit", "parts": parts}
 
 
-def gen_case(rng, tier, kind=None, N=None):
+def gen_case(rng, tier, kind=None, N=None, nc=None):
     kind = kind or rng.choice(KINDS)
     c = rng.randint(1, 3)
     d = rng.randint(1, 3)
@@ -94,9 +94,9 @@ def gen_case(rng, tier, kind=None, N=None):
     means = sig6(rs.randn(c, d) * 2 * scale)
     variances = sig6(rs.uniform(0.5, 2.0, size=(c, d)) * scale * scale)
     weights = gen_simplex(rng, c)
-    nc = rng.randint(2, 4)
-    N = N or (rng.randint(nc, 14 if tier == "thorough" else 10) if rng.random() < 0.93
-              else rng.randint(15, 40))
+    nc = nc or (rng.randint(2, 4) if rng.random() < 0.9 else rng.randint(5, 12))
+    N = N or (rng.randint(nc, max(nc, 14 if tier == "thorough" else 10)) if rng.random() < 0.93
+              else rng.randint(max(15, nc), max(40, nc)))
     nc = min(nc, N)
     y = list(range(nc)) + [rng.randrange(nc) for _ in range(N - nc)]
     if rng.random() < 0.8:
@@ -159,6 +159,18 @@ def fixed_cases(tier):
             cs["fault_free"] = True
             cs["sched"] = {"mode": "shared", "policy": "fifo", "workers": 1, "stall_p": 0.0, "seed": 0}
             out.append(cs)
+    # many classes (per-class task lists that are built or computed in groups)
+    for kind in ("isv", "jfa"):
+        for nc in ([65, 70] if tier == "quick" else [63, 64, 65, 70, 129, 140]):
+            r2 = random.Random(f"fixed12classes/{kind}/{nc}")
+            base = gen_case(r2, "quick", kind=kind, N=nc + 6, nc=nc)
+            base["cfg"]["it"] = 1
+            base["pre"] = None
+            base["xmodes"] = False
+            base["layout"] = {"type": "from_sequence", "npartitions": r2.choice([1, 7, nc])}
+            base["sched"] = {"mode": r2.choice(list(MODES)), "policy": "random", "workers": 3,
+                             "stall_p": 0.5, "seed": r2.getrandbits(32)}
+            out.append(base)
     # many statistics / partitions around powers of two
     counts = [15, 17, 31, 33, 65] if tier == "quick" else [15, 16, 17, 31, 32, 33, 63, 64, 65, 100, 129]
     for kind in KINDS:
